@@ -120,6 +120,8 @@ def main(args):
         cases = [(rp["case"]["family"], rp["case"]["spec_case"], rp["case"]["workspace"], rp["case"].get("classes", False))]
     else:
         model_check(run)
+        # unbounded: the TLAPS proof that the repaired mechanism satisfies Converged for any number of documents, changes and jobs
+        run.extra["tlaps_obligations_proved_DiagProof"] = run.tlaps("DiagProof")
         cases = []
         for k, (fam, c) in enumerate(gen(run)):
             cases.append((fam, c, False, False))
